@@ -40,11 +40,14 @@ application drains every iterator) is built in.  H2 is tight: a chunk exactly 10
 Also `wire_hint_consistent`: the only totalised case of the 0.6 wire model (`P6.wireRead` on a packet
 read against the token hint) is unreachable.
 
-The first-stage result about the two online cores alone (`online_*_partial`, stamp-based H2) is kept
-below; it is subsumed by the theorems above.
+`C01_conn6_accept_token`: the same when the accepting 0.6 connection is created by
+`Connection::new_accept_token` after a stateless listener answered the handshake.
+
+The first-stage result about the two online cores alone (stamp-based H2) is subsumed by the theorems
+above; it lives on as lemmas in `Proofs/ConnSafetyOnline.lean`.
 -/
 namespace Tw.Props.C01
-open Tw.Conn Tw.NetSim Tw.NetSim.Core
+open Tw.Conn Tw.NetSim
 
 /-- Tie: the sequence modulus the modular arithmetic of the proofs is written for -/
 theorem tie_seqmod : seqMod = 1024 ∧ Tw.Gen.Conn.P7.SEQUENCE_MODULUS = 1024 ∧ maxNumChunks = 255 := by decide
@@ -87,6 +90,15 @@ theorem C01_conn6 (tokenless : Bool) (sched : List (Move (proto6 tokenless))) (w
   safe_of (run_inv (P6.sim6 tokenless) sched _ w (init_inv (P6.sim6 tokenless)) hadm hrun)
     (run_hs (P6.hs6 tokenless) sched _ w init_hs hrun)
 
+/-- **C01 for 0.6 with an accepting side made by `Connection::new_accept_token`** (a stateless
+listener answered the handshake: `b` starts online with the token, its history holds the listener's
+`ConnectAccept` datagrams): the same conclusion for every admissible schedule -/
+theorem C01_conn6_accept_token (now token k : Nat) (sched : List (Move (proto6 false))) (w : World (proto6 false))
+    (hadm : admissible (World.initAccept6 now token k) sched = true)
+    (hrun : NetSim.run (World.initAccept6 now token k) sched = some w) : Safe w :=
+  safe_of (run_inv (P6.sim6 false) sched _ w (P6.initAccept_inv now token k) hadm hrun)
+    (run_hs (P6.hs6 false) sched _ w (P6.initAccept_hs now token k) hrun)
+
 /-- **C01 for 0.7** -/
 theorem C01_conn7 (sched : List (Move proto7)) (w : World proto7)
     (hadm : admissible (World.init proto7) sched = true) (hrun : run (World.init proto7) sched = some w) :
@@ -124,229 +136,22 @@ theorem wire_hint_consistent (tokenless : Bool) (sched : List (Move (proto6 toke
   have h := run_loc (P6.loc6 tokenless) sched _ w (init_loc (P6.loc6 tokenless)) hrun
   exact P6.misread_false (h.side to).1 ((h.side to.other).2 dg hdg)
 
+/-- … also from the `new_accept_token` start -/
+theorem wire_hint_consistent_accept_token (now token k : Nat) (sched : List (Move (proto6 false)))
+    (w : World (proto6 false)) (hrun : NetSim.run (World.initAccept6 now token k) sched = some w)
+    (to : Side) (dg : Sent Tw.Conn6.Packet) (hdg : dg ∈ (w.get to.other).out) :
+    P6.misread false dg.pkt (Tw.Conn6.Conn.hint (w.get to).conn) = false := by
+  have h := run_loc (P6.loc6 false) sched _ w (P6.initAccept_loc now token k) hrun
+  exact P6.misread_false (h.side to).1 ((h.side to.other).2 dg hdg)
+
 /-- H2 cannot be weakened: a chunk whose sequence number is exactly 1024 behind the one the
 receiver waits for passes the acceptance test (the 10-bit sequence space cannot tell them apart) -/
 theorem h2_tight (d : Nat) (hd : 1024 ≤ d) : (seqUpdate (d % 1024) ((d - 1024 + 1) % 1024)).2 = .current := by
   rw [seqUpdate_snd, seqNext_eq]
   omega
 
-/-! ## First stage: the online cores alone -/
-
-/-- **prefix theorem (online phase)**: for every admissible schedule from two fresh online endpoints,
-in both directions, what was handed over is a prefix of what was submitted -/
-theorem online_vital_prefix_partial (cfg : Cfg) (hc : cfg.Ok) (ms : List Move) (s : Sys)
-    (h : run cfg Sys.init ms = some s) (x : Bool) : s.del (!x) <+: s.sub x := by
-  have := (run_dir hc ms Sys.init s (Sys.init_dir cfg) h x).pre
-  rw [this]
-  exact List.take_prefix _ _
-
-/-- … for the 0.6 and the 0.7 configuration -/
-theorem online_vital_prefix6_partial (ms : List Move) (s : Sys) (h : run Tw.Conn6.cfg Sys.init ms = some s)
-    (x : Bool) : s.del (!x) <+: s.sub x := online_vital_prefix_partial _ Tw.Conn6.cfg_ok ms s h x
-
-theorem online_vital_prefix7_partial (ms : List Move) (s : Sys) (h : run Tw.Conn7.cfg Sys.init ms = some s)
-    (x : Bool) : s.del (!x) <+: s.sub x := online_vital_prefix_partial _ Tw.Conn7.cfg_ok ms s h x
-
-/-- the receiver's ack and the sender's sequence are the two counters modulo 1024 (wrap-around) -/
-theorem online_counters_partial (cfg : Cfg) (hc : cfg.Ok) (ms : List Move) (s : Sys)
-    (h : run cfg Sys.init ms = some s) (x : Bool) :
-    (s.ep (!x)).ack = (s.del (!x)).length % 1024 ∧ (s.ep x).sequence = (s.sub x).length % 1024 := by
-  have d := run_dir hc ms Sys.init s (Sys.init_dir cfg) h x
-  exact ⟨d.ack, d.seq⟩
-
-/-- every non-vital chunk handed over was submitted by the peer -/
-theorem online_nonvital_membership_partial (cfg : Cfg) (hc : cfg.Ok) (ms : List Move) (s : Sys)
-    (h : run cfg Sys.init ms = some s) (x : Bool) : ∀ d ∈ s.nvDel (!x), d ∈ s.nvSub x :=
-  (run_dir hc ms Sys.init s (Sys.init_dir cfg) h x).nvd
-
-/-! ## "ready" -/
-
-theorem receiveLazy_no_ready (ack : Nat) (cs : List Chunk) : Event.ready ∉ receiveLazy ack cs := by
-  induction cs generalizing ack with
-  | nil => simp [receiveLazy]
-  | cons c cs ih =>
-    unfold receiveLazy
-    cases hv : c.vital with
-    | none => simp only; intro h; rcases List.mem_cons.mp h with h | h; cases h; exact ih _ h
-    | some v =>
-      obtain ⟨s, r⟩ := v
-      simp only
-      split
-      · intro h; rcases List.mem_cons.mp h with h | h; cases h; exact ih _ h
-      · exact ih _
-
-theorem receive_events {cfg : Cfg} {now : Nat} {o : Online} {snd : Tw.Time.Timeout} {rr : Bool} {cs : List Chunk}
-    {o' : Online} {s' : Tw.Time.Timeout} {fl : List Flushed} {evs : List Event}
-    (h : o.receive cfg now snd rr cs = .ok (o', s', fl, evs)) : ∃ a, evs = receiveLazy a cs := by
-  unfold Online.receive at h
-  cases rr with
-  | false =>
-    simp only [Bool.false_eq_true, if_false] at h
-    split at h
-    · cases h
-    · injection h with h; injection h with _ e2; injection e2 with _ e3; injection e3 with _ e4
-      exact ⟨_, e4.symm⟩
-  | true =>
-    simp only [if_true] at h
-    cases hr : o.resend cfg now snd with
-    | error e => rw [hr] at h; cases h
-    | ok r =>
-      obtain ⟨o2, s2, f2⟩ := r
-      rw [hr] at h
-      simp only at h
-      split at h
-      · cases h
-      · injection h with h; injection h with _ e2; injection e2 with _ e3; injection e3 with _ e4
-        exact ⟨_, e4.symm⟩
-
-theorem tickAction6_no_events (env : Tw.Conn6.Env) (c c' : Tw.Conn6.Conn) (out : Tw.Conn6.Out)
-    (h : Tw.Conn6.tickAction env c = .ok (c', out)) : out.events = [] := by
-  obtain ⟨st, snd⟩ := c
-  cases st <;> simp only [Tw.Conn6.tickAction] at h
-  · injection h with h; injection h with _ h; rw [← h]
-  · split at h
-    · cases h
-    · injection h with h; injection h with _ h; rw [← h]
-  · split at h
-    · cases h
-    · injection h with h; injection h with _ h; rw [← h]
-  · split at h
-    · split at h
-      · cases h
-      · injection h with h; injection h with _ h; rw [← h]
-    · split at h
-      · cases h
-      · injection h with h; injection h with _ h; rw [← h]
-  · injection h with h; injection h with _ h; rw [← h]
-
-/-- **0.6**: processing a packet yields `Ready` only if the packet is a `ConnectAccept` control
-packet and the connection is `Connecting`; the connection then goes online with that packet's token.
-(`feedBody` is `feed` after the token check; every other call of the API produces no event at all.) -/
-theorem conn6_ready_only_on_accept_partial (env : Tw.Conn6.Env) (c c' : Tw.Conn6.Conn) (token : Option Nat)
-    (p : Tw.Conn6.Packet) (out : Tw.Conn6.Out)
-    (h : Tw.Conn6.feedBody env c token p = .ok (c', out)) (hr : Event.ready ∈ out.events) :
-    c.state = .connecting ∧ (∃ ack tok, p = .control ack tok .connectAccept) ∧ c'.state = .online token .new := by
-  obtain ⟨st, snd⟩ := c
-  cases p with
-  | connless d =>
-    simp only [Tw.Conn6.feedBody] at h
-    injection h with h; injection h with _ h; rw [← h] at hr; simp at hr
-  | chunks ack tk rr n cs =>
-    have key : ∀ (t : Option Nat) (o : Online),
-        (match o.receive Tw.Conn6.cfg env.now snd rr cs with
-          | .error e => .error e
-          | .ok (o1, send1, fl, evs) =>
-            match Tw.Conn6.emit (fl.map (Tw.Conn6.ofFlushed t)) with
-            | .error e => .error e
-            | .ok ps => .ok (⟨.online t o1, send1⟩, { sent := ps, events := evs })) = Except.ok (c', out) → False := by
-      intro t o hk
-      cases hrc : o.receive Tw.Conn6.cfg env.now snd rr cs with
-      | error e => rw [hrc] at hk; cases hk
-      | ok r =>
-        obtain ⟨o1, s1, fl, evs⟩ := r
-        rw [hrc] at hk
-        simp only at hk
-        split at hk
-        · cases hk
-        · injection hk with hk; injection hk with _ hk
-          rw [← hk] at hr
-          simp only at hr
-          -- the events are those of the lazy iterator
-          obtain ⟨a, ha⟩ := receive_events hrc
-          rw [ha] at hr
-          exact receiveLazy_no_ready _ _ hr
-    cases st with
-    | online t o => exact absurd h (fun hh => key t o hh)
-    | pending t => exact absurd h (fun hh => key t .new hh)
-    | unconnected => simp only [Tw.Conn6.feedBody] at h; injection h with h; injection h with _ h; rw [← h] at hr; simp at hr
-    | connecting => simp only [Tw.Conn6.feedBody] at h; injection h with h; injection h with _ h; rw [← h] at hr; simp at hr
-    | disconnected => simp only [Tw.Conn6.feedBody] at h; injection h with h; injection h with _ h; rw [← h] at hr; simp at hr
-  | control ack tk ctl =>
-    cases ctl with
-    | keepAlive => simp only [Tw.Conn6.feedBody] at h; injection h with h; injection h with _ h; rw [← h] at hr; simp at hr
-    | accept => simp only [Tw.Conn6.feedBody] at h; injection h with h; injection h with _ h; rw [← h] at hr; simp at hr
-    | close r => simp only [Tw.Conn6.feedBody] at h; injection h with h; injection h with _ h; rw [← h] at hr; simp at hr
-    | connect =>
-      cases st with
-      | unconnected =>
-        cases token with
-        | none =>
-          simp only [Tw.Conn6.feedBody] at h
-          have := tickAction6_no_events _ _ _ _ h
-          rw [this] at hr; simp at hr
-        | some t0 =>
-          simp only [Tw.Conn6.feedBody] at h
-          split at h
-          · split at h
-            · cases h
-            · have := tickAction6_no_events _ _ _ _ h
-              rw [this] at hr; simp at hr
-          · injection h with h; injection h with _ h; rw [← h] at hr; simp at hr
-      | online t o => simp only [Tw.Conn6.feedBody] at h; injection h with h; injection h with _ h; rw [← h] at hr; simp at hr
-      | pending t => simp only [Tw.Conn6.feedBody] at h; injection h with h; injection h with _ h; rw [← h] at hr; simp at hr
-      | connecting => simp only [Tw.Conn6.feedBody] at h; injection h with h; injection h with _ h; rw [← h] at hr; simp at hr
-      | disconnected => simp only [Tw.Conn6.feedBody] at h; injection h with h; injection h with _ h; rw [← h] at hr; simp at hr
-    | connectAccept =>
-      cases st with
-      | connecting =>
-        simp only [Tw.Conn6.feedBody] at h
-        split at h
-        · cases h
-        · injection h with h; injection h with h1 _
-          exact ⟨rfl, ⟨ack, tk, rfl⟩, by rw [← h1]⟩
-      | online t o => simp only [Tw.Conn6.feedBody] at h; injection h with h; injection h with _ h; rw [← h] at hr; simp at hr
-      | pending t => simp only [Tw.Conn6.feedBody] at h; injection h with h; injection h with _ h; rw [← h] at hr; simp at hr
-      | unconnected => simp only [Tw.Conn6.feedBody] at h; injection h with h; injection h with _ h; rw [← h] at hr; simp at hr
-      | disconnected => simp only [Tw.Conn6.feedBody] at h; injection h with h; injection h with _ h; rw [← h] at hr; simp at hr
-
-/-! ## Non-vacuity: an admissible schedule with loss, duplication and reordering; the guards are
-decidable and the statement computes -/
-
-def demo : List Move :=
-  [.send true [1] true, .send true [2] true, .flush true, .send true [3] true, .send true [9] false, .flush true,
-   .deliver false 1,      -- second datagram first: chunk 3 is from the future, a resend is requested
-   .deliver false 1,      -- duplicate
-   .flush false,
-   .deliver true 0,       -- the resend request reaches the sender: it resends everything
-   .flush true,
-   .deliver false 2,      -- the resent chunks arrive
-   .deliver false 0]      -- the delayed first datagram: all in the past
-
-example : (run Tw.Conn6.cfg Sys.init demo).map (fun s => (s.del false, s.sub true, s.nvDel false)) =
-    some ([[1], [2], [3]], [[1], [2], [3]], [[9], [9]]) := by decide +kernel
-
-example : Tw.Conn6.cfg.Ok ∧ Tw.Conn7.cfg.Ok := ⟨Tw.Conn6.cfg_ok, Tw.Conn7.cfg_ok⟩
-
-
 /-! ## Non-vacuity of the main theorems: admissible schedules with handshake, loss, duplication,
 reordering, a peer-requested resend and a timer tick, in which chunks are delivered -/
-
-/-- after the handshake: three vital chunks and a non-vital one in two datagrams; the second
-datagram arrives first (twice), the receiver asks for a resend, the resent chunks arrive, then the
-delayed first datagram -/
-def traffic (P : Proto) (alt : P.Alt) (first fb : Nat) : List (Move P) :=
-  [.call .a [] (.send [1] true), .call .a [] (.send [2] true), .call .a [] .flush,
-   .call .a [] (.send [3] true), .call .a [] (.send [9] false), .call .a [] .flush,
-   .deliver .b (first + 1) [] alt, .deliver .b (first + 1) [] alt,
-   .call .b [] .flush,
-   .deliver .a fb [] alt,
-   .call .a [] .flush,
-   .deliver .b (first + 2) [] alt,
-   .deliver .b first [] alt,
-   .advance 600000, .call .b [] .tick, .deliver .a (fb + 1) [] alt,
-   .call .b [] (.send [7] true), .call .b [] .flush, .deliver .a (fb + 2) [] alt]
-
-def demo6 (tokenless : Bool) : List (Move (proto6 tokenless)) :=
-  [.call .a [] .connect, .deliver .b 0 [12345] .exact, .deliver .a 0 [] .exact, .deliver .b 0 [] .exact] ++
-  traffic (proto6 tokenless) .exact 2 1
-
-def demo7 : List (Move proto7) :=
-  [.call .a [111] .connect, .deliver .b 0 [222] (), .deliver .a 0 [] (), .deliver .b 1 [] (),
-   .deliver .a 1 [] ()] ++ traffic proto7 () 2 2
-
-/-- submitted by a / handed to b (vital, non-vital) / handed to a; `Ready` events of a -/
-def summary {P : Proto} (w : World P) : List (List Bytes) × Nat :=
-  ([w.a.submittedVital, w.b.deliveredVital, w.b.deliveredNonvital, w.a.deliveredVital], readyCount w.a.events)
 
 example : admissible (World.init (proto6 false)) (demo6 false) = true := by decide +kernel
 example : (run (World.init (proto6 false)) (demo6 false)).map summary =
@@ -358,6 +163,10 @@ example : (run (World.init (proto6 true)) (demo6 true)).map summary =
 
 example : admissible (World.init proto7) demo7 = true := by decide +kernel
 example : (run (World.init proto7) demo7).map summary =
+    some ([[[1], [2], [3]], [[1], [2], [3]], [[9], [9]], [[7]]], 1) := by decide +kernel
+
+example : admissible (World.initAccept6 0 777 1) demoAccept6 = true := by decide +kernel
+example : (NetSim.run (World.initAccept6 0 777 1) demoAccept6).map summary =
     some ([[[1], [2], [3]], [[1], [2], [3]], [[9], [9]], [[7]]], 1) := by decide +kernel
 
 end Tw.Props.C01
